@@ -18,6 +18,7 @@ import (
 	"massnet.org/mass-wallet/masswallet/keystore"
 	"pgregory.net/rapid"
 	"verifharness/ev"
+	"verifharness/sim"
 )
 
 // ---- C08: removing a wallet erases it completely and leaves every other wallet intact ---------
@@ -105,6 +106,7 @@ func propC08(t *rapid.T) {
 	var victim *mwallet
 	removalRequested, removalDone := false, false
 	changesDuring, restartsDuring := 0, 0
+	sweepHeight, sweepReorged := uint64(0), false
 	removing := func() bool {
 		if victim == nil || removalDone {
 			return false
@@ -174,6 +176,58 @@ func propC08(t *rapid.T) {
 				changesDuring++
 			}
 			w.withChainChange(t, func() { w.actReorg(t) })
+		},
+		"jointSweep": func(t *rapid.T) {
+			// a transaction that spends coins of two wallets into ONE output (more inputs than outputs)
+			if removalRequested {
+				t.Skip("before the removal only")
+			}
+			view := w.chainView(t)
+			next := w.node.Height() + 1
+			pick := func(m *mwallet) *Coin {
+				for _, c := range walletCoins(view, m.owns) {
+					if c.Class == clsStd && c.Value > 0 && spendableAt(c, next) && w.coinAllowed(c) && len(w.pendingSpenders(c.Op)) == 0 {
+						return c
+					}
+				}
+				return nil
+			}
+			i := rapid.IntRange(0, len(w.wallets)-1).Draw(t, "sweepFirst")
+			A, B := w.wallets[i], w.wallets[(i+1)%len(w.wallets)]
+			ca, cb := pick(A), pick(B)
+			if ca == nil || cb == nil {
+				t.Skip("no spendable coins in both wallets")
+			}
+			tx := wire.NewMsgTx()
+			ins := []*Coin{ca, cb}
+			if rapid.Bool().Draw(t, "sweepOrder") {
+				ins = []*Coin{cb, ca}
+			}
+			var sum int64
+			for _, c := range ins {
+				tx.AddTxIn(sim.Spend(c.Op.Hash, c.Op.Index, requiredSequence(c)))
+				sum += c.Value
+			}
+			dest := sim.StdScript(w.strangers[0])
+			if rapid.IntRange(0, 3).Draw(t, "sweepToWallet") > 0 {
+				dest = sim.StdScript(A.issued[0].Hash)
+			}
+			tx.AddTxOut(wire.NewTxOut(sum-1000, dest))
+			w.withChainChange(t, func() {
+				w.mineFixed(t, []*wire.TxOut{wire.NewTxOut(100000000, sim.StdScript(w.strangers[1]))}, []*wire.MsgTx{tx}, true)
+			})
+			w.flag("joint-sweep")
+			sweepHeight = w.node.Height()
+		},
+		"reorgOverSweep": func(t *rapid.T) {
+			// after the removal: the block with the joint transaction is reorganised away
+			if !removalDone || sweepHeight == 0 || sweepReorged || w.node.Height() < sweepHeight || w.node.Height()-sweepHeight >= 10 {
+				t.Skip("no joint transaction to roll back")
+			}
+			sweepReorged = true
+			w.forcedReorgDepth = int(w.node.Height() - sweepHeight + 1)
+			w.withChainChange(t, func() { w.actReorg(t) })
+			w.flag("joint-sweep-rolled-back-after-removal")
 		},
 		"remove": func(t *rapid.T) {
 			if removalRequested {
